@@ -174,9 +174,20 @@ def same_rule(ck, mod, label):
     if cbi is None or udi is None:
         raise Broken("anchor vanished: init_user parameters callback/user_data")
     sysfn = a[cbi]
-    ck.ob(sysfn[0] == "f" and ir.is_null(a[udi]) and a[0] == ("a", 0), "R-C17-SAME", "tinyjambu_prng_init", "plain-init-args[%s]" % label,
-          "plain init = init_user(state, %s, NULL, custom, custom_len)" % (sysfn[1] if sysfn[0] == "f" else sysfn),
-          "plain init does not pass a fixed system callback and NULL user data", where=relpath(cs[0].where))
+
+    def _is_system(v):
+        """a function constant whose body asks the system entropy source"""
+        if not (isinstance(v, tuple) and v and v[0] == "f"):
+            return False
+        h_ = mod.fns.get(v[1])
+        return h_ is not None and bool(h_.calls("tinyjambu_trng_generate"))
+    # plain init either names the system callback itself or passes no callback and lets init_user's NULL path select it
+    by_null = ir.is_null(sysfn)
+    if by_null:
+        sysfn = None
+    ck.ob((by_null or sysfn[0] == "f") and ir.is_null(a[udi]) and a[0] == ("a", 0), "R-C17-SAME", "tinyjambu_prng_init", "plain-init-args[%s]" % label,
+          "plain init = init_user(state, %s, NULL, custom, custom_len)" % ("NULL (the NULL path selects the system source)" if by_null else sysfn[1] if sysfn[0] == "f" else sysfn),
+          "plain init does not pass a fixed system callback (or none) and NULL user data", where=relpath(cs[0].where))
     members = mod.composites[PRIV]["members"]
 
     def classify(I, e):
@@ -227,11 +238,19 @@ def same_rule(ck, mod, label):
             continue
         _, iid, callee, args = ics[0]
         where = relpath(f.insts[iid].where)
-        ck.ob(callee == sysfn, "R-C17-SAME", f.name, "null-path-callee[%s]" % label,
-              "with callback == NULL the first entropy request calls %s, the function plain init passes" % str(sysfn),
+        if sysfn is None:
+            if isinstance(callee, tuple) and callee and callee[0] == "f" and not _is_system(callee) and mod.fns.get(callee[1]) is not None and not mod.fns[callee[1]].blocks:
+                raise Broken("the function called on the NULL path (%s) is only declared: cannot tell whether it is the system source" % (callee,))
+            okc = _is_system(callee)
+            if okc:
+                sysfn = callee
+        else:
+            okc = callee == sysfn
+        ck.ob(okc, "R-C17-SAME", f.name, "null-path-callee[%s]" % label,
+              "with callback == NULL the first entropy request calls %s, the system source%s" % (str(callee), "" if by_null else " plain init passes"),
               "with callback == NULL the first entropy request calls through %s instead of the system source %s"
-              % ("a NULL pointer" if callee == 0 else str(callee), str(sysfn)), where=where)
-        sysf = mod.fns.get(sysfn[1]) if sysfn[0] == "f" else None
+              % ("a NULL pointer" if callee == 0 else str(callee), str(sysfn) if sysfn else "(a function that asks tinyjambu_trng_generate)"), where=where)
+        sysf = mod.fns.get(sysfn[1]) if (sysfn is not None and sysfn[0] == "f") else None
         ignores = sysf is not None and not sysf.arg_users(0)
         ck.ob(bool(args) and (args[0] == 0 or ignores), "R-C17-SAME", f.name, "null-path-user-data[%s]" % label,
               "user data on the NULL path is NULL as in plain init, or the system source ignores its user data",
